@@ -93,3 +93,94 @@ theorem aromatisedOnlyEligible_sound (k t : Mol) (sssr : List (List Nat)) (h : a
     exact ⟨r, hr, hc.1, hc.2⟩
 
 end ChythonModel.Proofs.C05
+
+namespace ChythonModel.Proofs.C05
+open ChythonModel.Model ChythonModel.Model.C05T
+
+theorem setOrderT_atoms (m : Mol) (a b o : Nat) : (setOrderT m a b o).atoms = m.atoms := rfl
+
+theorem setOrderT_keys (m : Mol) (a b o : Nat) :
+    (setOrderT m a b o).adj.map (fun p => (p.1, p.2.map (·.1))) = m.adj.map (fun p => (p.1, p.2.map (·.1))) := by
+  unfold setOrderT
+  simp only [List.map_map]
+  apply List.map_congr_left
+  intro p _
+  simp only [Function.comp]
+  split
+  · simp only [List.map_map, Prod.mk.injEq, true_and]
+    apply List.map_congr_left
+    intro q _
+    simp only [Function.comp]
+    split <;> rfl
+  · split
+    · simp only [List.map_map, Prod.mk.injEq, true_and]
+      apply List.map_congr_left
+      intro q _
+      simp only [Function.comp]
+      split <;> rfl
+    · rfl
+
+/-- what every sequence of bond-order assignments preserves -/
+def SameFrame (m t : Mol) : Prop :=
+  t.atoms = m.atoms ∧ t.adj.map (fun p => (p.1, p.2.map (·.1))) = m.adj.map (fun p => (p.1, p.2.map (·.1)))
+
+theorem sameFrame_refl (m : Mol) : SameFrame m m := ⟨rfl, rfl⟩
+
+theorem sameFrame_foldl_edges (o : Nat) : ∀ (es : List (Nat × Nat)) (m t : Mol), SameFrame m t →
+    SameFrame m (es.foldl (fun m e => setOrderT m e.1 e.2 o) t) := by
+  intro es
+  induction es with
+  | nil => intro m t h; exact h
+  | cons e es ih =>
+    intro m t h
+    simp only [List.foldl_cons]
+    apply ih
+    exact ⟨by rw [setOrderT_atoms]; exact h.1, by rw [setOrderT_keys]; exact h.2⟩
+
+theorem sameFrame_foldl_rings (o : Nat) : ∀ (rs : List (List Nat)) (m t : Mol), SameFrame m t →
+    SameFrame m (rs.foldl (fun m r => (ringEdges r).foldl (fun m e => setOrderT m e.1 e.2 o) m) t) := by
+  intro rs
+  induction rs with
+  | nil => intro m t h; exact h
+  | cons r rs ih =>
+    intro m t h
+    simp only [List.foldl_cons]
+    exact ih m _ (sameFrame_foldl_edges o (ringEdges r) m t h)
+
+/-- the functional model of `thiele(fix_tautomers=False)` never touches an atom (element, charge, radical, hydrogens,
+    …) nor the neighbour structure: it only assigns bond orders -/
+theorem thieleNoFix_frame (m : Mol) (sssr : List (List Nat)) (r : Bool) (t : Mol)
+    (h : thieleNoFix m sssr = some (r, t)) : SameFrame m t := by
+  unfold thieleNoFix at h
+  simp only at h
+  split at h
+  · cases h
+  · split at h
+    · simp only [Option.some.injEq, Prod.mk.injEq] at h; rw [← h.2]; exact sameFrame_refl m
+    · split at h
+      · simp only [Option.some.injEq, Prod.mk.injEq] at h; rw [← h.2]; exact sameFrame_refl m
+      · split at h
+        · simp only [Option.some.injEq, Prod.mk.injEq] at h; rw [← h.2]; exact sameFrame_refl m
+        · simp only [Option.some.injEq, Prod.mk.injEq] at h
+          rw [← h.2]
+          apply sameFrame_foldl_edges
+          apply sameFrame_foldl_rings
+          exact sameFrame_refl m
+
+/-- when the model answers `False` ("no aromatic ring found") the molecule is returned unchanged -/
+theorem thieleNoFix_false_unchanged (m : Mol) (sssr : List (List Nat)) (t : Mol)
+    (h : thieleNoFix m sssr = some (false, t)) : t = m := by
+  unfold thieleNoFix at h
+  simp only at h
+  split at h
+  · cases h
+  · split at h
+    · simp only [Option.some.injEq, Prod.mk.injEq] at h; exact h.2.symm
+    · split at h
+      · simp only [Option.some.injEq, Prod.mk.injEq] at h; exact h.2.symm
+      · split at h
+        · simp only [Option.some.injEq, Prod.mk.injEq] at h; exact h.2.symm
+        · simp only [Option.some.injEq, Prod.mk.injEq] at h
+          exact absurd h.1 (by decide)
+
+end ChythonModel.Proofs.C05
